@@ -910,6 +910,9 @@ def _build_attribute(node: ast.Attribute, parent: Module | Class, **kwargs: Any)
     if isinstance(left, ExprName):
         return ExprAttribute([left, ExprName(node.attr, left)])
     if isinstance(left, str):
+        if left.isdigit():
+            # `1.real` is a syntax error: integer literals must be parenthesized.
+            left = f"({left})"
         return ExprAttribute([left, ExprName(node.attr, "str")])
     return ExprAttribute([left, ExprName(node.attr)])
 
